@@ -221,17 +221,25 @@ fn c16_cmd() -> BoxedStrategy<PCmd> {
 }
 
 pub fn c03_strategy() -> BoxedStrategy<SymProg> {
-    prop_oneof![
-        3 => (init_strategy(), prop::collection::vec(prop::collection::vec(c03_cmd(), 1..=2), 2..=2)),
-        2 => (init_strategy(), prop::collection::vec(prop::collection::vec(c03_cmd(), 1..=1), 3..=3)),
-    ]
-    .prop_map(|(init, clients)| SymProg { init, clients, policy: None, prefill: 0 })
-    .boxed()
+    (
+        prop_oneof![
+            3 => (init_strategy(), prop::collection::vec(prop::collection::vec(c03_cmd(), 1..=2), 2..=2)),
+            2 => (init_strategy(), prop::collection::vec(prop::collection::vec(c03_cmd(), 1..=1), 3..=3)),
+        ],
+        // both store stacks: MemoryStore alone, and under RandomPolicy with a limit that is never reached
+        prop_oneof![2 => Just(None), 1 => Just(Some(1u64 << 40))],
+    )
+        .prop_map(|((init, clients), policy)| SymProg { init, clients, policy, prefill: 0 })
+        .boxed()
 }
 
 pub fn c04_strategy() -> BoxedStrategy<SymProg> {
-    (init_strategy(), prop::collection::vec(prop::collection::vec(c04_cmd(), 1..=1), 2..=3))
-        .prop_map(|(init, clients)| SymProg { init, clients, policy: None, prefill: 0 })
+    (
+        init_strategy(),
+        prop::collection::vec(prop::collection::vec(c04_cmd(), 1..=1), 2..=3),
+        prop_oneof![2 => Just(None), 1 => Just(Some(1u64 << 40))],
+    )
+        .prop_map(|(init, clients, policy)| SymProg { init, clients, policy, prefill: 0 })
         .boxed()
 }
 
@@ -361,7 +369,7 @@ fn kinds_signature(sp: &SymProg) -> String {
     v.join("+")
 }
 
-pub const RULE_C03: &str = "proptest programs: initial state of one key in {absent, present, present numeric, present-but-expired} x 2 clients with 1..2 commands or 3 clients with 1 command from {get, set with cas 0/current/stale/bogus (ttl 0 or 3), delete with cas 0/current/stale/bogus}; every interleaving of the clients at the granularity of the Cache-trait calls (get_by_key, check_if_expired, set, delete, remove, remove_if, flush) and command invocations is executed by a harness-owned baton scheduler (stateless DFS, exhaustive up to the leaf cap, pseudo-random schedules beyond). Oracle: linearizability search over all total orders consistent with program order and observed real-time precedence, run against the sequential reference model with the observed responses and the final probe. evaluations = executed schedules. non-trivial = a program with a mutation in which two clients' steps actually interleaved. distinct = distinct hash of the program";
+pub const RULE_C03: &str = "proptest programs: initial state of one key in {absent, present, present numeric, present-but-expired} x 2 clients with 1..2 commands or 3 clients with 1 command from {get, set with cas 0/current/stale/bogus (ttl 0 or 3), delete with cas 0/current/stale/bogus}; every interleaving of the clients at the granularity of the Cache-trait calls (get_by_key, check_if_expired, set, delete, remove, remove_if, flush) and command invocations, on MemoryStore alone and under RandomPolicy with an unreachable limit, is executed by a harness-owned baton scheduler (stateless DFS, exhaustive up to the leaf cap, pseudo-random schedules beyond). Oracle: linearizability search over all total orders consistent with program order and observed real-time precedence, run against the sequential reference model with the observed responses and the final probe. evaluations = executed schedules. non-trivial = a program with a mutation in which two clients' steps actually interleaved. distinct = distinct hash of the program";
 pub const RULE_C04: &str = "as C03 with commands from {add, replace, append, prepend, incr, decr} and {get, set, delete}: 2..3 clients with one command each, every initial state of the key (absent, present non-numeric, present numeric, expired), every interleaving at Cache-trait granularity; linearizability search against the reference model's read-modify-write semantics (exactly one add wins, increments add up and return distinct values, appended fragments all present, no resurrection after delete follow from it). non-trivial = two clients' steps interleaved and at least one mutation";
 pub const RULE_C16: &str = "proptest programs of 2..3 clients with 1..2 commands from all single-key commands, gets/sets on up to 12 other keys (record sizes 1..600), immediate and delayed flush, with and without random eviction under tiny limits (0, 40, 200, 700, 2000 bytes) over a pre-filled store; every interleaving at Cache-trait granularity (exhaustive up to the leaf cap, pseudo-random beyond). Oracle: a granted step must reach its next scheduling point; a client that blocks on a lock is detected through its kernel thread state and the lock holder is scheduled; a step that does not return within 10 s while nothing else can run is a stall (confirmed in a subprocess). Panics inside a command are violations as well. non-trivial = interleaved steps with at least one mutation";
 
